@@ -54,8 +54,34 @@ fn decide(c: &Case, tier: Tier, out: &mut CaseOut) -> Result<(), Fail> {
         out.class("skipped:rand_without_allow");
         return Ok(());
     }
+    // When draws can influence control flow the tree depends on the data stream. DFS promises one fixed
+    // stream for all executions: learn it (draw index -> value) from a first DFS pass and let the
+    // independent enumerator serve the same values.
+    let mut stream: Vec<u64> = vec![];
+    if has_rand {
+        let shared = Shared::new(DfsScheduler::new(Some(cap(tier) as usize), true));
+        let mut runs = 0;
+        loop {
+            let (r, e) = run_recorded(&prog, shared.clone(), quiet_config(MaxSteps::None), Opts::default());
+            runs += 1;
+            for (_, evs) in &e {
+                for (i, v) in draws(evs).iter().enumerate() {
+                    if i < stream.len() {
+                        if stream[i] != *v {
+                            return fail(format!("draw #{i} differs between DFS executions ({} vs {v})", stream[i]));
+                        }
+                    } else {
+                        stream.push(*v);
+                    }
+                }
+            }
+            if r.result.is_ok() || e.is_empty() || runs > 60 {
+                break;
+            }
+        }
+    }
     // reference: the full tree from the independent enumerator
-    let Some(leaves) = enumerate_recorded(&prog, cap(tier), quiet_config(MaxSteps::None), Opts::default(), None, 30) else {
+    let Some(leaves) = enumerate_recorded_with_stream(&prog, cap(tier), quiet_config(MaxSteps::None), Opts::default(), None, 30, stream) else {
         out.class("too_large");
         return Ok(());
     };
